@@ -12,7 +12,7 @@ import signal
 
 from ..common import BASE_TRUST, CoqError, cbytes, clist, cstr
 
-IMPORTS = "From Coq Require Import ZArith.\nFrom FV Require Import Base.Str C16.Model."
+IMPORTS = "From Coq Require Import ZArith.\nFrom FV Require Import Base.Str C16.Model C16.Chunks."
 
 
 # ----------------------------------------------------------------------------- generators
@@ -285,8 +285,14 @@ def check_reader(ctx, n, exhaustive_chunking=False):
             for j in range(i, len(data) + 1, 3):
                 cases.append((msgs, layouts, bodies, data, [data[:i], data[i:j], data[j:]]))
     exprs = []
-    for msgs, layouts, bodies, data, chunks in cases:
-        exprs.append("list_eqb str_eqb (fst (receive_all %d%%nat %s)) %s" % (len(bodies) + 1, cbytes(data), clist(bodies, cbytes)))
+    for k, (msgs, layouts, bodies, data, chunks) in enumerate(cases):
+        e = "list_eqb str_eqb (fst (receive_all %d%%nat %s)) %s" % (len(bodies) + 1, cbytes(data), clist(bodies, cbytes))
+        if k < n and len(chunks) <= 8:
+            # the chunked reader program of C16/Chunks.v on the very chunks the implementation gets
+            e += " && (match fst (run_chunks (receive_prog %d%%nat) %s) with PMsg b => str_eqb b %s | _ => false end)" % (
+                len(data) + 1, clist(chunks, cbytes), cbytes(bodies[0]))
+            ctx.extra["chunked_model_runs"] = ctx.extra.get("chunked_model_runs", 0) + 1
+        exprs.append(e)
     # the model is evaluated once per distinct stream
     uniq = {}
     for k, e in enumerate(exprs):
@@ -313,7 +319,7 @@ def check_reader(ctx, n, exhaustive_chunking=False):
                                                             "layouts": layouts},
                         "implementation": {"messages": got, "status": status}, "oracle": msgs})
         elif k in badset:
-            ctx.report("C16:reader-model-mismatch", "_receive differs from C16.Model.receive_all",
+            ctx.report("C16:reader-model-mismatch", "_receive differs from C16.Model.receive_all / C16.Chunks.receive_prog",
                        {"kind": "broken-correspondence", "input": {"stream_latin1": data.decode("latin-1")},
                         "implementation": got, "correspondence": "FV.C16.Model.receive_all vs JSONRPC2Connection._receive"},
                        found_input=False)
